@@ -565,8 +565,9 @@ pub fn min_len(data: &[u8], cap: usize, prefix: usize, modes: u8) -> Option<(usi
                     if v % 3 == 2 && body + 2 == cap {
                         upd(&mut best, cap, i, Step::FinalC40Pad(m, len));
                     }
-                    if v % 3 == 1 && lastv == 1 {
-                        // one value (a single data char) remains
+                    if v % 3 == 1 && lastv == 1 && has(Mode::Ascii) {
+                        // one value (a single data char) remains (ASCII tail: only counted
+                        // when ASCII is enabled, to stay conservative)
                         if body + 2 == cap {
                             upd(&mut best, cap, i, Step::FinalC40UnlatchAscii(m, len));
                         }
@@ -601,7 +602,7 @@ pub fn min_len(data: &[u8], cap: usize, prefix: usize, modes: u8) -> Option<(usi
             }
             // single trailing ASCII char without unlatch: segment of 3k native chars then one arbitrary 1-cw char at end
             // (handled: x12 len = 3k covering i..n-1, last char data[n-1] < 128)
-            if n >= 1 && i <= n - 1 {
+            if n >= 1 && i <= n - 1 && has(Mode::Ascii) {
                 let len = n - 1 - i;
                 if len % 3 == 0 && len > 0 && data[i..n - 1].iter().all(|c| x12_value(*c).is_some()) && data[n - 1] < 128 {
                     let body = base + 1 + 2 * (len / 3);
@@ -624,7 +625,12 @@ pub fn min_len(data: &[u8], cap: usize, prefix: usize, modes: u8) -> Option<(usi
                 if c > cap + 3 {
                     break;
                 }
-                if c < dp[j + 1] {
+                // every EDIFACT group (the last one holds the unlatch value) must start with at
+                // least 3 codewords left in the symbol, otherwise the stream is ambiguous
+                let groups = (len + 1 + 3) / 4;
+                let last_group_start = base + 1 + 3 * (groups - 1);
+                let unambiguous = last_group_start + 3 <= cap;
+                if unambiguous && c < dp[j + 1] {
                     dp[j + 1] = c;
                     back[j + 1] = Some((i, Step::Seg(Mode::Edifact, len)));
                 }
@@ -634,7 +640,7 @@ pub fn min_len(data: &[u8], cap: usize, prefix: usize, modes: u8) -> Option<(usi
                         upd(&mut best, body, i, Step::FinalEdifactExact(len));
                     }
                     // ascii tail without unlatch: remaining chars j+1..n in ASCII, <= 2 cw, and cap - body <= 2
-                    if body <= cap && cap - body <= 2 && n - (j + 1) <= 4 && j + 1 < n {
+                    if body <= cap && cap - body <= 2 && n - (j + 1) <= 4 && j + 1 < n && has(Mode::Ascii) {
                         let tail = &data[j + 1..];
                         let t = ascii_greedy(tail);
                         if body + t <= cap {
